@@ -125,7 +125,9 @@ class JSONSerialization(Serialization):
             schema = dispatch_method(p, safe=safe)
         else:
             schema = {'type': ptype.lower()}
-        return JSONNullable(schema) if p.allow_None else schema
+        # A default of None is a state the object can be in (Selectors
+        # declared without a default do not switch allow_None on)
+        return JSONNullable(schema) if p.allow_None or p.default is None else schema
 
     @classmethod
     def serialize_parameter_value(cls, pobj, pname):
@@ -246,7 +248,8 @@ class JSONSerialization(Serialization):
         try:
             allowed_types = [{'type': cls.json_schema_literal_types[type(obj)]}
                              for obj in p.objects]
-            schema = {'anyOf': allowed_types}
+            # ("anyOf" must not be empty in a JSON schema)
+            schema = {'anyOf': allowed_types} if allowed_types else {}
             schema['enum'] = p.objects
             return schema
         except Exception:
@@ -261,7 +264,8 @@ class JSONSerialization(Serialization):
         try:
             allowed_types = [{'type': cls.json_schema_literal_types[type(obj)]}
                              for obj in p.objects.values()]
-            schema = {'anyOf': allowed_types}
+            # ("anyOf" must not be empty in a JSON schema)
+            schema = {'anyOf': allowed_types} if allowed_types else {}
             schema['enum'] = p.objects
             return schema
         except Exception:
